@@ -42,7 +42,10 @@ impl Hooks {
     #[verifier::external_body]
     pub fn execute_remove_hook(&self, admin: &Admin, deps: DepsMut, info: MessageInfo, addr: Addr) -> (r: Result<Response, HookError>)
         ensures !admin.is_admin_spec(&*old(deps.storage), info.sender) ==> r is Err && final(deps.storage).kv@ == old(deps.storage).kv@,
-                r is Ok ==> final(deps.storage).kv@ == old(deps.storage).kv@.insert(self.key(), final(deps.storage).kv@[self.key()])
+                r is Ok ==> final(deps.storage).kv@ == old(deps.storage).kv@.insert(self.key(), final(deps.storage).kv@[self.key()]),
+                // cw-controllers 1.1 `Hooks::remove_hook`: the first registration of `addr` is taken out (Err when it is not registered)
+                r is Ok ==> exists|i: int| 0 <= i < self.hooks_of(&*old(deps.storage)).len() && (#[trigger] self.hooks_of(&*old(deps.storage))[i]).s@ == addr.s@
+                    && self.hooks_of(&*final(deps.storage)) =~= self.hooks_of(&*old(deps.storage)).remove(i)
     { unimplemented!() }
     /// one prepared message per registered hook, in order; the first failing `prep` aborts with its error
     #[verifier::external_body]
